@@ -114,6 +114,10 @@ func runC07(c *an.Ctx) {
 	}
 
 	// ---- R2 unchecked type assertions.
+	memoByCall := map[*ssa.Call]memoSite{}
+	for _, ms := range memoSites(c) {
+		memoByCall[ms.call] = ms
+	}
 	nTA := 0
 	seen := map[string]int{}
 	for _, fn := range c.P.ModFuncs {
@@ -142,6 +146,15 @@ func runC07(c *an.Ctx) {
 			if why, ok := c07AssertAllow[k]; ok {
 				c.Note("R2", key, ta.Pos(), "not decided mechanically; manual argument: "+why)
 				return
+			}
+			// memoised operand: the provenance argument additionally needs a role prefix in the cache key (C13.R1)
+			if ex, ok := ta.X.(*ssa.Extract); ok {
+				if call, ok := ex.Tuple.(*ssa.Call); ok {
+					if ms, isMemo := memoByCall[call]; isMemo && !ms.hasPfx {
+						c.Bad("R2", key, ta.Pos(), "unchecked type assertion on a value taken from the process-wide cache under the un-namespaced key "+tempName.ReplaceAllString(an.Expr(ms.key), "")+": another role caching a different type under the same text makes this assertion panic")
+						return
+					}
+				}
 			}
 			ts, okProv := c.P.DynTypes(ta.X)
 			var names []string
